@@ -663,7 +663,9 @@ class Collector : public RecursiveASTVisitor<Collector> {
     return true;
   }
   bool VisitEnumDecl(EnumDecl* D) {
-    if (D->isCompleteDefinition() && Em.inRoots(D->getLocation()) && !D->isDependentContext()) Enums.push_back(D);
+    if (D->isCompleteDefinition() && !D->isDependentContext() &&
+        (Em.inRoots(D->getLocation()) || !Em.SM.isInSystemHeader(Em.SM.getExpansionLoc(D->getLocation()))))
+      Enums.push_back(D);
     return true;
   }
   bool VisitCXXRecordDecl(CXXRecordDecl* R) {
@@ -765,6 +767,8 @@ class Consumer : public ASTConsumer {
         es.push_back(json::Object{{"n", E->getNameAsString()}, {"v", std::string(s.str())}});
       }
       o["enumerators"] = std::move(es);
+      o["underlying"] = Em.typeStr(D->getIntegerType().getCanonicalType());
+      o["scoped"] = D->isScoped();
       enums.push_back(std::move(o));
     }
     json::Array asserts;
